@@ -113,10 +113,16 @@ CLAIMED = {
         text="Shared skeleton of all solvers: the status decision of solver_t::done (RE-TRANSLATED from solver.cpp/state.cpp on every run) is a trichotomy converged / max_iters / failed; the line-search "
              "family returns an evaluation of f; update_if_better accepts only a strict decrease, so the best state is one of the evaluated triples, its value never increases and the result is <= f(x0); "
              "value_test as specified; reported call counters are copies of the function's monotone counters; and evaluations <= max_evals + K for an explicit per-iteration bound K, for EVERY oracle "
-             "behaviour (13 theorems). The 35+3 solver bodies are not modelled individually: what each hands to update_if_better / done is the hypothesis of the skeleton theorems and is monitored on every "
-             "run against an independent evaluation log (correspondence by oracle replay on hooks state.update_if_better / lsearch.end / solver.done). Python oracle: finite unless failed, f <= f0 + allowance "
-             "in the documented class, budget overshoot <= 1100 + 8 dim, over all solver ids x functions x epsilon x max_evals.",
-        note=NOTE_COMMON + "Termination of the individual solver bodies and K <= 1100 + 8 dim are observed (tested), not proved; gradient-sampling solvers use an unseeded RNG (clauses must hold for every draw)."),
+             "behaviour (13 theorems). The iteration bodies of ten non-monotone solvers (sgm, cocob, sda, wda, pgm, dgm, fgm, asga2, asga4, osga) are modelled as coded and instantiate the oracle slot of the "
+             "generic loop: for every objective, parameter value, start, epsilon and budget it is proved that every candidate handed to update_if_better is (x, grad f(x), f(x)) at the point the recurrence "
+             "produced (so the returned value is f at the returned point without hypothesis), that an iteration costs at most K_solver evaluations (2 / 2 ls / 3 ls / 4 ls / 3) hence evaluations < max_evals + K_solver, "
+             "the status trichotomy, and that converged is reached only through the documented tests (19 theorems). The remaining bodies (ellipsoid, rqb, fpba1/2, gradient sampling, penalty / augmented Lagrangian "
+             "outer loops: see C03/C05) enter as the hypothesis of the skeleton theorems and are monitored on every run against an independent evaluation log. Correspondence: oracle replay on hooks "
+             "state.update_if_better / lsearch.end / solver.done, and for the ten modelled bodies a replay of whole runs from the wrapper's evaluation log (every point, candidate, decision, counter). Python oracle: "
+             "finite unless failed, f <= f0 + allowance in the documented class, budget overshoot <= 1100 + 8 dim (sharp K_solver for the modelled bodies), over all solver ids x functions x epsilon x max_evals x "
+             "solver parameters over their registered domains.",
+        note=NOTE_COMMON + "Termination of the solver bodies is structural on fuel in the model and observed on the code; K <= 1100 + 8 dim for the unmodelled bodies is observed (tested), not proved; positivity / finiteness "
+             "of step sizes is not proved; gradient-sampling solvers use an unseeded RNG (clauses must hold for every draw)."),
     "C03": dict(
         category="proof", technique=TECH, design="DESIGN.md §4 C03",
         text="Bundle (append / serious-step moveto / aggregate / delete_largest with std::nth_element as oracle, smeared e and s, the stopping tests, the curve-search status logic) and ellipsoid (1-D branch, deep-cut "
